@@ -89,16 +89,24 @@ structure Consts where
   recoverStatus : Nat   -- status of the error object built by `recover()` in `receive`
   undefinedStatus : Nat -- `newErrorResponsef(nil, …, "%q not defined on %q")` in `receive`
   failedStatus : Nat    -- `newErrorResponsef(err, …, "%q failed: %s")` in `registerMethod`
+  /-- `ServeHTTP`'s error branch assigns to a field of the object the resource returned
+  (`errRes.Message = …`; DESIGN §7 F8). Regenerated from the AST of `handler.go`. -/
+  storesThroughPointer : Bool
+  /-- some call on the package-level `rng` of package d2 is not preceded by a `Lock()` in its
+  function (DESIGN §7 F16). Regenerated from the AST of `d2/*.go`. -/
+  rngUnlocked : Bool
 deriving Repr, DecidableEq
 
 def constsV2 : Consts :=
   ⟨Gen.Routing.srvInitialStatus, Gen.Routing.srvNilStatus, Gen.Routing.recoverStatus,
    (Gen.Routing.errStatuses.lookup "receive: %q not defined on %q").getD 0,
-   (Gen.Routing.errStatuses.lookup "registerMethod: %q failed: %s").getD 0⟩
+   (Gen.Routing.errStatuses.lookup "registerMethod: %q failed: %s").getD 0,
+   Gen.C17.errBranchStoresThroughPointer, Gen.C17.rngDrawUnlocked⟩
 def constsRoot : Consts :=
   ⟨GenRoot.Routing.srvInitialStatus, GenRoot.Routing.srvNilStatus, GenRoot.Routing.recoverStatus,
    (GenRoot.Routing.errStatuses.lookup "receive: %q not defined on %q").getD 0,
-   (GenRoot.Routing.errStatuses.lookup "registerMethod: %q failed: %s").getD 0⟩
+   (GenRoot.Routing.errStatuses.lookup "registerMethod: %q failed: %s").getD 0,
+   GenRoot.C17.errBranchStoresThroughPointer, GenRoot.C17.rngDrawUnlocked⟩
 
 /-- an error message: `http.StatusText(code)` filled in by the library, or a text chosen by someone else -/
 inductive Msg
@@ -282,10 +290,15 @@ def aMarshalMessage : Act :=
     | none => (s, l)
     | some e => (s, { l with body := .error l.mStatus e.message })
 
-/-- the accesses of one `ServeHTTP` call. `fixed = false` is the code as it is today. -/
+/-- the accesses of one `ServeHTTP` call. `fixed = false`: the error branch stores the default
+message through the pointer it was given (the code before /repo commit bf479cd); `fixed = true`: it
+completes a copy. Which of the two describes /repo NOW is `Consts.storesThroughPointer`, see `serveNow`. -/
 def serveProg (C : Consts) (fixed : Bool) (q : Req) : List Act :=
   [aRoute C q, aInvoke C q] ++ (if fixed then [aCopyErr] else []) ++
   [aReadStatus C, aTestMessage, aFillRead C fixed, aFillWrite fixed, aMarshalStatus, aMarshalMessage]
+
+/-- `ServeHTTP` as it is in /repo now (switch regenerated from the source on every check) -/
+def serveNow (C : Consts) (q : Req) : List Act := serveProg C (!C.storesThroughPointer) q
 
 /-! ### adapter registry (`sync.Map`) -/
 
@@ -336,9 +349,13 @@ def aChoose : Act :=
     | some hs, some d => (s, { l with host := some (choose hs d) })
     | _, _ => (s, l)⟩
 
-/-- `ResolveHostnameAndContextForQuery`. `locked = false` is the code as it is today. -/
+/-- `ResolveHostnameAndContextForQuery`. `locked = false`: `rng.Float64()` on the shared generator
+without a lock; `locked = true`: the draw is one atomic step. -/
 def resolveProg (locked : Bool) : List Act :=
   [aLoadSnapshot] ++ (if locked then [aRngDrawLocked] else [aRngRead, aRngWrite]) ++ [aChoose]
+
+/-- the resolver as it is in /repo now (switch regenerated from the source on every check) -/
+def resolveNow (C : Consts) : List Act := resolveProg (!C.rngUnlocked)
 
 /-- `waitForUriUpdates`: `uri := c.uris.Load(…); c.uris.Store(…, handleUriUpdate(uri, e))` where
 `handleUriUpdate` builds a *new* snapshot from a copy (here: `f` applied to the loaded value) -/
